@@ -63,3 +63,6 @@ func (s *Server) CscConn(id int) *Conn {
 	defer s.mu.Unlock()
 	return s.conns[id]
 }
+
+// CscQueued returns the commands queued in the connection's open transaction.
+func (c *Conn) CscQueued() [][]string { return c.queued }
